@@ -24,10 +24,19 @@ def seeds_table():
     return "\n".join(rows)
 
 
+def props_table():
+    m = json.load(open(os.path.join(V, "MANIFEST.json")))
+    rows = ["| property | level | how it is decided (quick / thorough differ in bounds only) | limits |", "|---|---|---|---|"]
+    for c in m["checks"]:
+        rows.append("| %s | %s | %s | %s |" % (c["property_id"], c["level_claimed"]["category"], c["level_claimed"]["text"].replace("|", "\\|"),
+                                              c.get("level_note", "").replace("|", "\\|")))
+    return "\n".join(rows)
+
+
 def main():
     p = os.path.join(V, "DESIGN.md")
     s = open(p).read()
-    for tag, fn in (("FINDINGS", findings_table), ("SEEDS", seeds_table)):
+    for tag, fn in (("FINDINGS", findings_table), ("SEEDS", seeds_table), ("PROPS", props_table)):
         pat = re.compile(r"(<!-- BEGIN %s -->\n).*?(<!-- END %s -->)" % (tag, tag), re.S)
         if pat.search(s):
             s = pat.sub(lambda m: m.group(1) + fn() + "\n" + m.group(2), s)
